@@ -301,6 +301,23 @@ m = g(r.sub, p.sub) && r.obj == p.obj && r.act == p.act
 					}
 				}
 			}
+			// a second save of a shrunk policy through the SAME string adapter: nothing of the
+			// first save may come back
+			e2.EnableAutoSave(false)
+			if pol, _ := e2.GetNamedPolicy("p"); len(pol) > 0 {
+				_, _ = e2.RemoveNamedPolicy("p", toIface(append([]string(nil), pol[0]...))...)
+			} else if gp, _ := e2.GetNamedGroupingPolicy("g"); len(gp) > 0 {
+				_, _ = e2.RemoveNamedGroupingPolicy("g", toIface(append([]string(nil), gp[0]...))...)
+			}
+			shrunk2 := allKey(e2)
+			// (an EMPTY policy is left out: the string adapter refuses to load its own empty text)
+			if err := e2.SavePolicy(); err == nil && shrunk2 != "###" {
+				if err := e2.LoadPolicy(); err != nil {
+					c.Direct(id, "LoadPolicy after a second SavePolicy failed on the string adapter", fmt.Sprintf("text=%q shrunk=%s", text, shrunk2))
+				} else if after := allKey(e2); after != shrunk2 {
+					c.Direct(id, "a second SavePolicy (shrunk policy) through the same string adapter does not reload as itself", fmt.Sprintf("text=%q saved=%s reloaded=%s", text, shrunk2, after))
+				}
+			}
 		}
 		c.Count("text-roundtrip")
 	}
